@@ -293,6 +293,10 @@ pub struct MonState {
     pub steps: u64,
     pub budget: u64,
     pub budget_exhausted: bool,
+    /// wall-clock guard (inconclusive, never a verdict): programs whose single instructions are slow
+    /// (strings doubling in a loop) would otherwise hold a worker until the client's watchdog fires
+    pub started: Option<std::time::Instant>,
+    pub wall_exhausted: bool,
     pub hist: BTreeMap<String, u64>,
     pub want_hist: bool,
     pub want_c15: bool,
@@ -714,6 +718,22 @@ impl Monitor for Mon {
         if m.steps > m.budget {
             m.budget_exhausted = true;
             return true;
+        }
+        if let Variant::VString(text) = a {
+            // a program that keeps doubling a string is outside every workload's intent
+            if text.len() > (1 << 22) {
+                m.budget_exhausted = true;
+                m.wall_exhausted = true;
+                return true;
+            }
+        }
+        if m.steps & 255 == 0 {
+            let t0 = *m.started.get_or_insert_with(std::time::Instant::now);
+            if t0.elapsed().as_secs() >= 8 {
+                m.budget_exhausted = true;
+                m.wall_exhausted = true;
+                return true;
+            }
         }
         if m.want_hist {
             *m.hist.entry(opcode_name(instruction)).or_insert(0) += 1;
